@@ -445,7 +445,7 @@ func scenFLT(s *sched.Sim, cfg Config, res *Result) {
 						// the elements of a batch run side by side: half of these cases under a drawn
 						// schedule instead of the canonical one (the fault then hits the site-th call of
 						// the faulted element in that schedule)
-						if s.T.Bool(1, 2) {
+						if s.DrawBool(1, 2) {
 							s.Policy = drawPolicy(s)
 							s.Policy.NoSearch = nil
 							res.Probe("flt.batch-case-under-drawn-schedule")
